@@ -217,6 +217,15 @@ contract("toasty.pyramid._make_position_filter")(lambda c: c.model(_posfilter_mo
 UserFilter = z3.Function("UserFilter", z3.IntSort(), z3.IntSort(), z3.IntSort(), z3.BoolSort())
 
 
+from pyvc.contracts_api import spec  # noqa: E402
+
+
+@spec
+def user_filter_accepts(interp, pos):
+    from pyvc.core import z3num as _z
+    return UserFilter(*[_z(v) for v in pos.vals])
+
+
 def posfilter_spec(apex, pos):
     from pyvc.core import z3num
     an, ax, ay = [z3num(v) for v in apex.vals]
